@@ -1,104 +1,150 @@
 ------------------------------ MODULE ThrottleP ------------------------------
 (* C09 - policy-mode strategy-based throttling: property specification (P).    *)
 (*                                                                             *)
-(* Observable events only: a request for (remedy, group) arrives at instant    *)
-(* `now` (abstract ticks) and is answered "pass" or "block".  Windows are      *)
-(* aligned to the epoch grid: window index of instant t for remedy r is        *)
-(* t \div W[r]; the boundary instant k*W belongs to window k.                  *)
+(* Observable events only: a request for remedy r carrying group header value  *)
+(* g arrives at instant `now` (abstract ticks) and is answered "pass" or       *)
+(* "block"; the operator may change a remedy's window length between requests  *)
+(* (apply_policies).  Windows are aligned to the epoch grid: the window of      *)
+(* instant t is t \div W[r]; the boundary instant k*W belongs to window k.     *)
 (*                                                                             *)
-(* The specification *is* the property: handled one at a time, a request       *)
-(* passes iff its group's share of the current grid window is not used up.     *)
-(* Groups absent from a remedy's allocation table follow the default           *)
-(* behaviour (allow / block / default allocation share).                       *)
+(* The specification *is* the property.  It remembers, per (remedy, group),    *)
+(* the instants of the requests that passed - `curs` since the remedy's window *)
+(* length last changed (the current accounting epoch), `olds` before that.     *)
+(*   bound      : a request may pass only if fewer than Limit requests of the  *)
+(*                current epoch passed in the current grid window;             *)
+(*   exactness  : it may be blocked only if at least Limit requests (of any    *)
+(*                epoch) passed in the current grid window.                    *)
+(* Between the two (only possible right after a window-length change) either   *)
+(* verdict is allowed.  Groups absent from a remedy's allocation table follow  *)
+(* the default behaviour (allow / block / default allocation share); a remedy  *)
+(* without a table does not group at all.                                      *)
 EXTENDS Integers, Sequences, FiniteSets
 
 CONSTANTS
     Remedy,        \* set of remedy names
     Group,         \* set of group header values (incl. values not in any table)
-    W,             \* [Remedy -> window length in ticks]
+    W0,            \* [Remedy -> initial window length in ticks]
+    WChoices,      \* window lengths the operator may configure
     Allowed,       \* [Remedy -> allowed requests per window]
     Pct,           \* [Remedy -> [Group -> 0..100 or -1 (= not in the table)]]
-    DefBehav,      \* [Remedy -> "allow" | "undefined" | "block" | "use_default" | "none"]  (none: remedy has no allocation table)
+    DefBehav,      \* [Remedy -> "allow" | "undefined" | "block" | "use_default" | "none" (no allocation table)]
     DefPct,        \* [Remedy -> default allocation percentage]
     MaxNow,        \* bound on the clock (model checking only)
     Steps          \* set of clock advances
 
 VARIABLES
     now,           \* current instant (ticks since the epoch)
-    win,           \* [Remedy -> [Group -> grid index of the window `cnt` refers to]]
-    cnt,           \* [Remedy -> [Group -> requests passed in that window]]
+    W,             \* [Remedy -> configured window length]
+    olds,          \* [Remedy -> [Group -> instants of passes before the current accounting epoch]]
+    curs,          \* [Remedy -> [Group -> instants of passes of the current accounting epoch]]
     last           \* last observable event (output only)
 
-vars == <<now, win, cnt, last>>
+vars == <<now, W, olds, curs, last>>
 
 Ceil100(x) == (x + 99) \div 100
 
-\* share of the window for (r, g); -1 = the default behaviour decides without counting
 InTable(r, g) == DefBehav[r] = "none" \/ Pct[r][g] >= 0
 Limit(r, g) ==
     IF DefBehav[r] = "none" THEN Allowed[r]
     ELSE IF Pct[r][g] >= 0 THEN Ceil100(Allowed[r] * Pct[r][g])
     ELSE Ceil100(Allowed[r] * DefPct[r])
 
-GridIdx(r, t) == t \div W[r]
-
 \* a remedy without an allocation table does not group at all: one counter whatever the header says
 NoGroup == CHOOSE g \in Group : TRUE
 KeyOf(r, g) == IF DefBehav[r] = "none" THEN NoGroup ELSE g
 
-\* requests already passed in the current grid window
-Used(r, g) == IF win[r][g] = GridIdx(r, now) THEN cnt[r][g] ELSE 0
-
-\* the verdict the property requires for a request handled on its own
-Verdict(r, g) ==
-    IF ~InTable(r, g) /\ DefBehav[r] \in {"allow", "undefined"} THEN "pass"
-    ELSE IF ~InTable(r, g) /\ DefBehav[r] = "block" THEN "block"
-    ELSE IF Used(r, g) < Limit(r, g) THEN "pass" ELSE "block"
-
+\* does the key consume the window share at all (else the default behaviour answers)
 Counts(r, g) == InTable(r, g) \/ DefBehav[r] = "use_default"
+
+InWindow(r, t) == t \div W[r] = now \div W[r]
+CountIn(r, s) == Cardinality({i \in 1..Len(s) : InWindow(r, s[i])})
+UsedEpoch(r, g) == CountIn(r, curs[r][g])
+UsedTotal(r, g) == CountIn(r, olds[r][g]) + CountIn(r, curs[r][g])
+
+\* verdicts the property permits for a request handled on its own (g is the key)
+CanPass(r, g) ==
+    IF ~Counts(r, g) THEN DefBehav[r] \in {"allow", "undefined"}
+    ELSE UsedEpoch(r, g) < Limit(r, g)
+CanBlock(r, g) ==
+    IF ~Counts(r, g) THEN DefBehav[r] = "block"
+    ELSE UsedTotal(r, g) >= Limit(r, g)
+Permits(r, gh, out) ==
+    \/ out = "pass" /\ CanPass(r, KeyOf(r, gh))
+    \/ out = "block" /\ CanBlock(r, KeyOf(r, gh))
 
 Init ==
     /\ now = 1                 \* the epoch instant itself is not a reachable "now"
-    /\ win = [r \in Remedy |-> [g \in Group |-> -1]]
-    /\ cnt = [r \in Remedy |-> [g \in Group |-> 0]]
+    /\ W = W0
+    /\ olds = [r \in Remedy |-> [g \in Group |-> <<>>]]
+    /\ curs = [r \in Remedy |-> [g \in Group |-> <<>>]]
     /\ last = [ev |-> "init"]
+
+\* instants that can no longer share a window with the present under any configurable length are forgotten
+Live(t, n) == \E w \in WChoices : t \div w = n \div w
+Prune(f, n) == [r \in Remedy |-> [g \in Group |-> SelectSeq(f[r][g], LAMBDA t : Live(t, n))]]
 
 Advance(d) ==
     /\ now + d <= MaxNow
     /\ now' = now + d
+    /\ olds' = Prune(olds, now + d)
+    /\ curs' = Prune(curs, now + d)
     /\ last' = [ev |-> "adv", d |-> d]
-    /\ UNCHANGED <<win, cnt>>
+    /\ UNCHANGED W
+
+\* the operator changes the window length of remedy r: a new accounting epoch for all its groups
+SetW(r, w) ==
+    /\ w \in WChoices /\ w # W[r]
+    /\ W' = [W EXCEPT ![r] = w]
+    /\ olds' = [olds EXCEPT ![r] = [g \in Group |-> olds[r][g] \o curs[r][g]]]
+    /\ curs' = [curs EXCEPT ![r] = [g \in Group |-> <<>>]]
+    /\ last' = [ev |-> "setw", r |-> r, w |-> w]
+    /\ UNCHANGED now
+
+\* bookkeeping of an answered request (no guard: used by the product with the implementation model)
+Observe(r, gh, out) ==
+    LET g == KeyOf(r, gh) IN
+    /\ IF Counts(r, g) /\ out = "pass"
+       THEN curs' = [curs EXCEPT ![r][g] = Append(@, now)]
+       ELSE UNCHANGED curs
+    /\ UNCHANGED <<now, W, olds>>
 
 \* a request for remedy r carrying group header value gh is answered with `out`
 Request(r, gh, out) ==
-    LET g == KeyOf(r, gh) IN
-    /\ out = Verdict(r, g)
-    /\ IF Counts(r, g)
-       THEN /\ win' = [win EXCEPT ![r][g] = GridIdx(r, now)]
-            /\ cnt' = [cnt EXCEPT ![r][g] = Used(r, g) + (IF out = "pass" THEN 1 ELSE 0)]
-       ELSE UNCHANGED <<win, cnt>>
+    /\ Permits(r, gh, out)
+    /\ Observe(r, gh, out)
     /\ last' = [ev |-> "req", r |-> r, g |-> gh, out |-> out]
-    /\ UNCHANGED now
+
+\* n requests for the same key handled at the same instant by overlapping calls, p of them passed:
+\* permitted iff some order of the n verdicts is permitted one by one (passes first is the most permissive order)
+Batch(r, gh, n, p) ==
+    LET g == KeyOf(r, gh) IN
+    /\ p \in 0..n
+    /\ IF Counts(r, g)
+       THEN /\ UsedEpoch(r, g) + p <= Limit(r, g)
+            /\ (p < n => UsedTotal(r, g) + p >= Limit(r, g))
+            /\ curs' = [curs EXCEPT ![r][g] = @ \o [i \in 1..p |-> now]]
+       ELSE /\ (p > 0 => DefBehav[r] \in {"allow", "undefined"})
+            /\ (p < n => DefBehav[r] = "block")
+            /\ UNCHANGED curs
+    /\ last' = [ev |-> "batch", r |-> r, g |-> gh, n |-> n, p |-> p]
+    /\ UNCHANGED <<now, W, olds>>
 
 Next ==
     \/ \E d \in Steps : Advance(d)
+    \/ \E r \in Remedy, w \in WChoices : SetW(r, w)
     \/ \E r \in Remedy, g \in Group, out \in {"pass", "block"} : Request(r, g, out)
 
 Spec == Init /\ [][Next]_vars
 
 -------------------------------------------------------------------------------
-\* The property, as state invariants / action properties of P itself (sanity: P satisfies it)
+\* The property restated as invariants of P itself (sanity: P satisfies them)
 
-PerWindow == \A r \in Remedy, g \in Group : cnt[r][g] <= Limit(r, g)
+PerWindow == \A r \in Remedy, g \in Group : UsedEpoch(r, g) <= Limit(r, g)
 
-\* counters of other remedies / groups are never touched by a request
+\* a request never touches the accounting of another remedy or group
 Isolation == [][\A r \in Remedy, g \in Group :
                   (last'.ev = "req" /\ (last'.r # r \/ KeyOf(last'.r, last'.g) # g)) =>
-                      (cnt'[r][g] = cnt[r][g] /\ win'[r][g] = win[r][g])]_vars
-
-\* a block is only given when the share of the current window is used up (or by default behaviour)
-Exact == [][(last'.ev = "req" /\ last'.out = "block" /\ Counts(last'.r, KeyOf(last'.r, last'.g))) =>
-               Used(last'.r, KeyOf(last'.r, last'.g)) >= Limit(last'.r, KeyOf(last'.r, last'.g))]_vars
+                      (curs'[r][g] = curs[r][g] /\ olds'[r][g] = olds[r][g])]_vars
 
 TypeOK == now \in 0..MaxNow
 ================================================================================
